@@ -36,7 +36,7 @@ ASSUMPTIONS = [
     "other; tightness is 1e-7 * scale, so a sub-threshold cubic term at ordinary scale cannot move an extremum by more",
 ]
 TOLERANCES = {"containment": "1e-9 * S", "tightness": "1e-7 * S", "arc": "+ 1e-15 * (ratio*cond)^2 * S"}
-MANDATORY_LABELS = {"quick": ["seg:Q", "seg:C", "seg:A", "seg:L", "extrema:0", "extrema:1", "extrema:2", "cubic:near-linear", "arc:beyond-full-turn", "arc:tiny", "path", "subpath", "stroke:transformed", "stroke:untransformed", "shape:rrect", "shape:circle", "group", "group:nested", "group:empty", "use", "use:chained", "history:created-empty-then-sized"]}
+MANDATORY_LABELS = {"quick": ["seg:Q", "seg:C", "seg:A", "seg:L", "extrema:0", "extrema:1", "extrema:2", "cubic:near-linear", "arc:beyond-full-turn", "arc:tiny", "path", "subpath", "stroke:transformed", "stroke:untransformed", "shape:rrect", "shape:circle", "group", "group:nested", "group:empty", "use", "use:chained", "history:created-empty-then-sized", "stroke:non-scaling"]}
 MANDATORY_LABELS["thorough"] = MANDATORY_LABELS["quick"]
 
 GOLD = (math.sqrt(5.0) - 1.0) / 2.0
@@ -223,7 +223,7 @@ def stroke_choice(d):
 
 
 def decode_path(d):
-    return {"kind": "path", "segs": gen.path_segments(d, max_subpaths=3, max_segs=3, c=gen.small_coord), "A": gen.matrix(d), "stroke": stroke_choice(d), "sub": d.below(4)}
+    return {"kind": "path", "segs": gen.path_segments(d, max_subpaths=3, max_segs=3, c=gen.small_coord), "A": gen.matrix(d), "stroke": stroke_choice(d), "sub": d.below(4), "nss": d.chance(1, 3)}
 
 
 def decode_shape(d):
@@ -361,6 +361,11 @@ def check_path(case):
     if sw is not None:
         p.stroke = se.Color("red")
         p.stroke_width = sw
+    nss = bool(case.get("nss")) and sw is not None
+    if nss:
+        # a stroke that does not scale with the element's transform (no viewport transform here: it keeps its width)
+        p.values["vector-effect"] = "non-scaling-stroke"
+        o.label("stroke:non-scaling")
     orig = list(p.segments(transformed=False))
     det = abs(gen.mat_det(A))
     for transformed in (True, False):
@@ -373,7 +378,7 @@ def check_path(case):
         for with_stroke in (False, True):
             delta = 0.0
             if with_stroke and sw is not None:
-                delta = sw * math.sqrt(det) / 2.0 if transformed else sw / 2.0
+                delta = sw * math.sqrt(det) / 2.0 if (transformed and not nss) else sw / 2.0
                 o.label("stroke:%s" % ("transformed" if transformed else "untransformed"))
             got = p.bbox(transformed=transformed, with_stroke=with_stroke)
             what = "path(transformed=%s,with_stroke=%s)" % (transformed, with_stroke)
@@ -398,6 +403,13 @@ def check_path(case):
             bad = judge_box(o, got, drawn, S, "subpath(transformed=%s)" % transformed, extra_tol=arc_extra(window, M, S), alt=withmoves)
             if bad is not None:
                 return bad
+            if sw is not None:
+                # the view is painted with its path's stroke
+                delta = sw * math.sqrt(det) / 2.0 if (transformed and not nss) else sw / 2.0
+                got = sp.bbox(transformed=transformed, with_stroke=True)
+                bad = judge_box(o, got, grow(drawn, delta), S + delta, "subpath(transformed=%s,with_stroke=True)" % transformed, extra_tol=arc_extra(window, M, S), alt=grow(withmoves, delta))
+                if bad is not None:
+                    return bad
     curved = any(s[0] in "QCA" for s in case["segs"])
     o.nontrivial = (curved and interior >= 1) or (sw is not None and abs(det - 1.0) > 1e-6)
     return o.ok()
